@@ -24,6 +24,19 @@ class BoundBuiltin(V):
         return "<%r.%s>" % (self.base, self.name)
 
 
+class PyObjV(V):
+    """a model object implemented in /verif (e.g. a recording worksheet); methods
+    are python callables taking (interp, args, kwargs)"""
+    def __init__(self, obj):
+        self.obj = obj
+
+    def key(self):
+        return ("pyobj", id(self.obj))
+
+    def __deepcopy__(self, memo):
+        return self
+
+
 class DerivV(V):
     """gradient(f): the derivative of callable f (semantic summary of
     atsim.potentials._util.gradient, justified by its own obligations)."""
@@ -230,6 +243,15 @@ class OpsMixin(object):
             raise RaiseSignal(ExcV(ExtV("builtins.AttributeError"), [Const(attr)]), node)
         if isinstance(base, Opaque):
             return Opaque(("attr", base.path, attr))
+        if isinstance(base, Unknown):
+            return Unknown(base.tag + "." + attr)
+        if isinstance(base, PyObjV):
+            a = getattr(base.obj, "get_" + attr, None)
+            if a is not None:
+                return a(self)
+            if hasattr(base.obj, "m_" + attr):
+                return BoundBuiltin(base, attr)
+            self.err(node, "model object %r has no attribute %s" % (base.obj, attr))
         if isinstance(base, Phi):
             a = self.with_path(base.cond, True, lambda: self.getattr(base.a, attr, node))
             b = self.with_path(base.cond, False, lambda: self.getattr(base.b, attr, node))
@@ -322,6 +344,9 @@ class OpsMixin(object):
         raise AnalysisError("hasattr on %r" % (base,))
 
     def setattr(self, base, attr, val, node=None):
+        if isinstance(base, PyObjV):
+            getattr(base.obj, "set_" + attr)(self, val)
+            return
         if isinstance(base, InstV):
             # property setter?
             for c in base.ci.mro():
@@ -361,6 +386,9 @@ class OpsMixin(object):
                 return self.seq_elem(SeqV("opaque", path=base.path, elem_class=self.elem_classes.get(base.path)), idx.rf)
             return Opaque(("item", base.path, idx.key()))
         if isinstance(base, LoopDictV):
+            hit = self.loopdict_direct(base, idx)
+            if hit is not None:
+                return hit
             return LookupV(base, idx, None)
         if isinstance(base, Const) and isinstance(base.v, str) and isinstance(idx, Num) and idx.const() is not None:
             return Const(base.v[int(idx.const())])
@@ -466,6 +494,8 @@ class OpsMixin(object):
             return SeqV("opaque", path=v.path, elem_class=self.elem_classes.get(v.path))
         if isinstance(v, SortedV):
             return v
+        if isinstance(v, LoopDictV):
+            return SeqV("seqmap", var=v.var, seq=v.seq, elem=v.keyv)
         if isinstance(v, SetV):
             return v
         if isinstance(v, Const) and isinstance(v.v, str):
@@ -498,6 +528,8 @@ class OpsMixin(object):
         if isinstance(fn, ExtV):
             return self.call_external(fn, args, kwargs, node, env)
         if isinstance(fn, BoundBuiltin):
+            if isinstance(fn.base, PyObjV):
+                return getattr(fn.base.obj, "m_" + fn.name)(self, args, kwargs)
             return self.call_bound(fn, args, kwargs, node)
         if isinstance(fn, InstV):
             c = fn.ci.lookup("__call__")
@@ -518,6 +550,9 @@ class OpsMixin(object):
             return Num(ep.app(fn.path, nums))
         if isinstance(fn, DerivV):
             return self.call_deriv(fn, args, node)
+        if isinstance(fn, Unknown):
+            self.log_event(("eval", ("unknown", fn.tag)))
+            return Unknown(fn.tag + "()")
         if isinstance(fn, Phi):
             a = self.with_path(fn.cond, True, lambda: self.call(fn.a, args, kwargs, node, env))
             b = self.with_path(fn.cond, False, lambda: self.call(fn.b, args, kwargs, node, env))
